@@ -263,8 +263,10 @@ package op
 //@   ensures b == v
 
 // an unknown dynamic is refused and leaves the destination alone; an accepted one is one of the six signs
+//@ define dynOf(s) ite(s == "pp", Pianissimo, ite(s == "p", Piano, ite(s == "mp", MezzoPiano, ite(s == "mf", MezzoForte, ite(s == "f", Forte, ite(s == "ff", Fortissimo, UnknownDynamicSign))))))
 //@ func DynamicSign.UnmarshalYAML returns (err)
 //@   modifies d
 //@   requires d != nil && value != nil
-//@   ensures err == nil ==> validDyn(*d)
+//@   ensures (err == nil) == (dynOf(value.Value) != UnknownDynamicSign)
+//@   ensures err == nil ==> *d == dynOf(value.Value) && validDyn(*d)
 //@   ensures err != nil ==> *d == old(*d)
